@@ -562,7 +562,40 @@ func (e *Engine) havocLoop(s *State, fr *Frame, li *LoopInfo) {
 	e.havocWrites(s, fr, li.Writes, fmt.Sprintf("loop%d", li.Ordinal))
 }
 
+// havocReaderPos forgets the position of one reader of the model (its length and data stay).
+func (e *Engine) havocReaderPos(s *State, ref Term, hint string) {
+	e.ghostKeys()
+	np := e.u.Fresh(hint+".readerpos", SInt)
+	e.brSetPos(s, ref, np)
+	v := e.brGet(s, ref)
+	s.assume(And(Le(IntLit(0), np), Le(np, v.ln)))
+}
+
 func (e *Engine) havocWrites(s *State, fr *Frame, w *WriteSet, hint string) {
+	if !w.All && !w.Heap[gBrPos] {
+		for al := range w.ReaderCells {
+			if pv, ok := fr.regs[al].(*Ptr); ok && pv.Kind == pkCell {
+				if rp, ok := s.cells[pv.Cell].(*Ptr); ok && rp.Kind == pkObj {
+					e.havocReaderPos(s, rp.Ref, hint)
+					continue
+				}
+			}
+			e.ghostKeys()
+			s.havocHeapKey(gBrPos, hint)
+		}
+		for idx := range w.Readers {
+			if idx < len(fr.fn.Params) {
+				if p, ok := fr.regs[fr.fn.Params[idx]].(*Ptr); ok && p.Kind == pkObj {
+					e.havocReaderPos(s, p.Ref, hint)
+					continue
+				}
+			}
+			e.ghostKeys()
+			s.havocHeapKey(gBrPos, hint)
+			if false {
+			}
+		}
+	}
 	for al := range w.Cells {
 		pv, ok := fr.regs[al]
 		if !ok {
@@ -1091,7 +1124,8 @@ func (e *Engine) bytesToString(s *State, sl Term, elem types.Type) Term {
 			app := fmt.Sprintf("(%s a o n)", name)
 			ax := fmt.Sprintf("(forall ((a %s) (o Int) (n Int)) (! (=> (>= n 0) (= (str.len %s) n)) :pattern (%s)))", inner, app, app)
 			e.u.AddAxiom(name, Term{ax, SBool})
-			ax2 := fmt.Sprintf("(forall ((a %s) (o Int) (n Int) (i Int)) (! (=> (and (<= 0 i) (< i n)) (= (str.to_code (str.at %s i)) (select a (+ o i)))) :pattern ((str.at %s i))))", inner, app, app)
+			// only arrays holding bytes denote strings: without the range guard the axiom would be inconsistent
+			ax2 := fmt.Sprintf("(forall ((a %s) (o Int) (n Int) (i Int)) (! (=> (and (<= 0 i) (< i n) (<= 0 (select a (+ o i))) (<= (select a (+ o i)) 255)) (= (str.to_code (str.at %s i)) (select a (+ o i)))) :pattern ((str.at %s i))))", inner, app, app)
 			e.u.AddAxiom(name, Term{ax2, SBool})
 		}
 	}
